@@ -71,6 +71,8 @@ impl<T> RcDeref for MutArc<T> {
 
   #[inline]
   fn rc_deref(&self) -> Self::Ref<'_> {
+    #[cfg(rxrust_verif)]
+    crate::scheduler::verif_hook::lock_point(Arc::as_ptr(&self.0) as *const () as usize);
     self.0.lock().unwrap()
   }
 }
@@ -91,6 +93,8 @@ impl<T> RcDerefMut for MutArc<T> {
 
   #[inline]
   fn rc_deref_mut(&self) -> Self::MutRef<'_> {
+    #[cfg(rxrust_verif)]
+    crate::scheduler::verif_hook::lock_point(Arc::as_ptr(&self.0) as *const () as usize);
     self.0.lock().unwrap()
   }
 }
